@@ -28,6 +28,32 @@ class Ctx:
             self._probe = IR.load_probe(self.facts)
         return self._probe
 
+def thorough_extra(pid, repo, rc):
+    """thorough tier: after the property was decided on the tree itself, measure the check on the recorded breaking and benign variants of
+    the CURRENT tree (nsa/selftest.py) and add the result to the evidence file.  The verdict about /repo is not changed by it."""
+    import json
+    from . import selftest
+    res = selftest.run(pid, repo)
+    evdir = os.environ.get('NSA_EVIDENCE_DIR') or os.path.join(os.path.dirname(os.path.dirname(os.path.abspath(__file__))), 'evidence')
+    path = os.path.join(evdir, pid + '.json')
+    try:
+        ev = json.load(open(path))
+        ev['coverage']['selftest'] = res
+        ev['coverage']['explanation'] += (' Thorough tier: the check was additionally run on %d breaking and %d behaviour-preserving variants of the current tree '
+                                          '(scratch copies, IR only): %d/%d breaking variants reported, %d/%d benign variants silent.'
+                                          % (res['breaking_applied'], res['benign_applied'], res['breaking_detected'], res['breaking_applied'],
+                                             res['benign_silent'], res['benign_applied']))
+        json.dump(ev, open(path, 'w'), indent=1, sort_keys=True)
+    except Exception as e:
+        print('%s selftest: could not extend the evidence file: %s' % (pid, e))
+    for r in res['breaking_missed']:
+        print('%s SELFTEST-MISS %s rc=%s %s' % (pid, r['patch'], r['rc'], r['first']))
+    for r in res['benign_alarms']:
+        print('%s SELFTEST-FALSE-ALARM %s rc=%s %s' % (pid, r['patch'], r['rc'], r['first']))
+    print('%s selftest: %d/%d breaking variants detected, %d/%d benign variants silent, %d skipped (do not apply to the current tree)'
+          % (pid, res['breaking_detected'], res['breaking_applied'], res['benign_silent'], res['benign_applied'], len(res['skipped_do_not_apply'])))
+    return rc
+
 def main(argv=None):
     ap = argparse.ArgumentParser()
     ap.add_argument('pid')
@@ -42,6 +68,8 @@ def main(argv=None):
         rep = Report(pid, tier, LEVELS.get(pid, 'other'))
         rep.units = ctx.meta['units'].get('C', [])
         rc = rulemod.run(ctx, rep)
+        if tier == 'thorough' and rc == 0 and not os.environ.get('NSA_NO_SELFTEST'):
+            rc = thorough_extra(pid, a.repo, rc)
         return rc
     except AnalysisBroken as e:
         print('ANALYSIS-BROKEN property=%s %s' % (pid, e))
